@@ -258,6 +258,11 @@ class Extractor:
                        "proof_after": []}
                 fns.append(cur)
                 sub = cur["contract"]
+            elif s.startswith("//@loop_r7 "):
+                # extra invariant lines used only if rule R7 has to desugar this loop (a `continue`
+                # appeared in its body): the while form needs its bound and a decreases clause
+                a = shlex.split(s[len("//@loop_r7 "):])
+                sub = cur.setdefault("loops_r7", {}).setdefault(int(a[0]), [])
             elif s.startswith("//@loop "):
                 a = shlex.split(s[len("//@loop "):])
                 sub = cur["loops"].setdefault(int(a[0]), [])
@@ -448,6 +453,7 @@ class Extractor:
                     rec["edits"].append("R7: `%s` desugared to while" % hdr.strip())
                     self.out.emit_src(src, k, "%slet mut r7_i: usize = %s; let r7_n: usize = %s;" % (ind, a, b))
                     self.out.emit_src(src, k, "%swhile r7_i < r7_n" % ind)
+                    inv = inv + f.get("loops_r7", {}).get(n, [])
                     for il in inv:
                         if il.strip():
                             self.out.emit(il)
